@@ -4,10 +4,10 @@
    Tokens:  r<id>:<bytes>   s<id>:<parent>:<off>:<cnt>   f<id>   w<id>:<off>:<cnt>:<seed>
             z:<bytes> (resize)   k (shrinkToFit)   a:<alignment> (setAlignment)
    R, per operation, separated by " ; ":
-     <ok|ERR|NUL> reserved size numReservations alignment memoryAllocated maxMemoryAllocated mig
+     <token> <ok|ERR|NUL> reserved size numReservations alignment memoryAllocated maxMemoryAllocated mig
        [id/family@offset+size#fnv32(contents) ...]      (set order)
      or OOB when the model says the real code touches bytes outside a buffer (then the line ends)
-   S, per operation:  <tag|?> <count> [id:size:fnv32 ...] (by id); tag is ? for resize (whether it
+   S, per operation:  <token> <tag|?> <count> [id:size:fnv32 ...] (by id); tag is ? for resize (whether it
      must fail depends on reserved(), which the check recomputes from the observed layout).
    The variant (pinned/fixed source) is chosen by the environment variable C03_VARIANT. *)
 let variant =
@@ -128,11 +128,11 @@ let () =
               let o = iz (r_off r) and s = iz (r_sz r) in o < 0 || o + s > size) (p_res p) in
           sep robs;
           if p_oob p || escaped then begin
-            Buffer.add_string robs "OOB"; dead := true
+            Buffer.add_string robs (tok ^ " OOB"); dead := true
           end else begin
             let mig = if had_res && iz (p_gen p) <> gen0 then 1 else 0 in
             Buffer.add_string robs
-              (Printf.sprintf "%s %d %d %d %d %d %d %d [" (tag_s outcome) (iz (p_reserved p)) size
+              (Printf.sprintf "%s %s %d %d %d %d %d %d %d [" tok (tag_s outcome) (iz (p_reserved p)) size
                  (List.length (p_res p)) (iz (p_align p)) (iz (d_alloc d)) (iz (d_max d)) mig);
             let first = ref true in
             List.iter (fun r ->
@@ -149,7 +149,7 @@ let () =
         let stag = spec_tok tok in
         sep sobs;
         let live = List.sort (fun a b -> compare (iz a.s_id) (iz b.s_id)) (s_live !sp) in
-        Buffer.add_string sobs (Printf.sprintf "%s %d [" stag (List.length live));
+        Buffer.add_string sobs (Printf.sprintf "%s %s %d [" tok stag (List.length live));
         let first = ref true in
         List.iter (fun m ->
           let bytes = match s_read !sp m.s_id with Some l -> l | None -> [] in
